@@ -494,6 +494,17 @@ pub fn gen_mode(d: &mut Dec, p: &GenParams, name: &str) -> ModeSpec {
     for _ in 0..n {
         let rx = gen_pattern_rx(d, p);
         let mut tt = gen_token_type(d, p);
+        if !pats.is_empty() && d.chance(14) {
+            // a token type that coincides with an earlier one of this mode when truncated to 8, 16,
+            // 31, 32 bits or taken modulo 64 (narrow integer keys, bit masks)
+            let base = pats[d.below(pats.len())].tt;
+            let deltas: &[usize] = if p.big_token_types {
+                &[64, 128, 256, 1 << 16, 1 << 31, 1 << 32, 1 << 32, 3 << 32, 1 << 33]
+            } else {
+                &[64, 128, 256, 1 << 16]
+            };
+            tt = base.wrapping_add(*d.pick(deltas));
+        }
         while pats.iter().any(|q| q.tt == tt) {
             tt += 1;
         }
